@@ -250,6 +250,26 @@ def structure_of(repo, func, e, ci):
                 if b is not None and dotted(b["t"]) in ("self.key",
                                                         "self.value"):
                     return dotted(b["t"]).split(".")[1].capitalize()
+            # if not isinstance(<name>, type(self.key)): raise ...
+            if isinstance(n, ast.If) and n.body and isinstance(
+                    n.body[0], ast.Raise):
+                t = n.test
+                parts = t.values if isinstance(t, ast.BoolOp) and isinstance(
+                    t.op, ast.Or) else [t]
+                if isinstance(t, ast.BoolOp) and isinstance(t.op, ast.And) \
+                        and all(match(f"{e.id} is not None", v) is not None
+                                for v in t.values[:-1]):
+                    # `x is not None and not isinstance(x, T)`: None has no
+                    # .data, so whatever gets further is a T
+                    parts = [t.values[-1]]
+                for p_ in parts:
+                    if isinstance(p_, ast.UnaryOp) and isinstance(
+                            p_.op, ast.Not):
+                        b = match(f"isinstance(@{e.id}, type($t))",
+                                  p_.operand)
+                        if b is not None and dotted(b["t"]) in (
+                                "self.key", "self.value"):
+                            return dotted(b["t"]).split(".")[1].capitalize()
     return None
 
 
@@ -281,6 +301,11 @@ def buffer_size(repo, call, e, ci, func, role):
         s = structure_of(repo, func, e.value, ci)
         if s is not None:
             return Sym(s + ".stack")
+        if isinstance(e.value, ast.Name) and e.value.id in param_names(func):
+            # a caller's object whose type nothing establishes: its buffer
+            # is as long as it happens to be
+            return Sym(f"len({unparse(e)}), `{e.value.id}` not established "
+                       f"to be the map's {role} structure")
     if isinstance(e, ast.Name):
         # a local: single reaching definition
         cfg = CFG(func)
